@@ -89,12 +89,20 @@ def main(tier, seed):
         return [AdapterContainer(BlockingAdapter(), BlockingIo())]
 
     fcases = []
-    for cfg, devs in small:
+    # ... also a failing device that has nothing to do with a (late) system simulation holding a chain of devices: the stop
+    # request can reach the system simulation while the tick replayed to it is still on its way through the chain
+    indep = ({1: dict(order=[(3, "dev"), (4, 2)], conns=[]),
+              2: dict(order=[(5, "dev"), (6, "dev"), (7, "dev")], conns=[(5, 1, 6, 1), (6, 1, 7, 1), (7, 1, EXP, 1)])},
+             {3: (4, 400_000_000, 1), 5: (4, 300_000_000, 1), 6: (4, 300_000_000, 0), 7: (4, 300_000_000, 0)})
+    for cfg, devs in small + [indep]:
         tops = [c for (c, _) in cfg[1]["order"]]
         ad = {d: blocking for d in slevel.devices_of(cfg)}
         for failing in slevel.devices_of(cfg):
             ref = slevel.run_internal(cfg, devs, (1, 1), 0, [], 300_000_003, fail={failing: 1}, adapters=ad)
-            for vec in itertools.product((0, 3, 6), repeat=len(tops) + 1):
+            vectors = list(itertools.product((0, 3, 6), repeat=len(tops) + 1))
+            if cfg is indep[0] and failing == 3:
+                vectors += [(0, a, b) for a in range(0, 9) for b in range(0, 9)]      # every pair of start delays of the two
+            for vec in vectors:
                 delays = dict(zip(["sched"] + tops, vec))
                 if not any(vec):
                     continue
